@@ -248,7 +248,9 @@ fn build_blocks(thorough: bool) -> Vec<Block> {
     let (l_body, l_rdata, l_name) = if thorough { (7, 6, 7) } else { (6, 5, 6) };
     for h in HEADER_SHAPES.iter() {
         for e in [Entry::Message, Entry::Request, Entry::TsigTbs] {
-            blocks_for("f2", e, &h.bytes(), Some(&S), l_body, &mut v);
+            // quick: the two entry points that share Message's record readers stay one octet shorter
+            let lb = if !thorough && e != Entry::Message { l_body - 1 } else { l_body };
+            blocks_for("f2", e, &h.bytes(), Some(&S), lb, &mut v);
         }
     }
     for h in HEADER_SHAPES.iter().filter(|h| h.flags & 0x8000 == 0) {
@@ -350,7 +352,8 @@ fn build_edit_items(thorough: bool, entries: &[c01::alphabet::Entry], msg_seeds:
     }
     let pfx12 = families::pointer_target_prefix(12);
     for (tag, t, w) in seeds::rdata_seeds(entries) {
-        items.push(EditItem { tag: tag.clone(), entry: Entry::Rdata { rtype: t, off: 0 }, prefix: vec![], seed: w.clone(), pairs: thorough });
+        // RDATA seeds are short: their complete two-substitution neighbourhood over S is part of the quick tier
+        items.push(EditItem { tag: tag.clone(), entry: Entry::Rdata { rtype: t, off: 0 }, prefix: vec![], seed: w.clone(), pairs: thorough || w.len() <= 48 });
         items.push(EditItem { tag, entry: Entry::Rdata { rtype: t, off: 12 }, prefix: pfx12.clone(), seed: w, pairs: false });
     }
     for (tag, w) in seeds::record_seeds(entries) {
@@ -548,19 +551,28 @@ fn main() {
     }
 
     ctx.set_rule(
-        "E-ENUM, four families, every element decoded by the real entry points (Message::from_vec, Request::from_bytes, \
-         DnsResponse::from_buffer, signed_bitmessage_to_buf, Record::read, Name::read, RData::read for 89 type codes). \
+        "E-ENUM, six families, every element decoded by the real entry points (Message::from_vec, Request::from_bytes, the \
+         server's front door ServerContext::handle_request via the verif hook with a probing RequestHandler, \
+         DnsResponse::from_buffer, signed_bitmessage_to_buf, Record::read, Name::read, RData::read; the deferred CAA value \
+         parsers run on every decoded CAA record). \
          f1: ALL byte strings of length 0..2 (quick) / 0..3 (thorough) as whole input, as body after 15 header shapes, as \
-         record/name/RDATA at offset 0 and at offset 12 behind pointer-target octets. f2: ALL strings over S={00,01,02,03,04,0c,\
-         3f,40,7f,80,bf,c0,c1,ff} of length <=6/5/6 (quick: body/RDATA/name) or <=7/6/7 (thorough), names also at every offset k of the string itself (earlier octets are pointer targets) and at offset 0x3ffe. \
-         f3: complete single-edit neighbourhoods (every truncation, every octet x all 256 values, insert/delete over S, every \
-         16-bit window set to 8 boundary values; thorough: all pairs of S-substitutions on messages) of a seed corpus of valid \
-         messages / records / RDATA / names covering every RData variant, EDNS, TSIG, compression. f4: 22 growth families for \
-         n = 1..64, 128, 256, ... up to the largest n that fits 65,535 octets. Oracle: returns (no panic); decoder ticks <= \
-         256*len+4096 and (f4) ticks/len at any size <= 4x the maximum seen up to 4 KiB; every decoded Name <= 255 octets, \
-         labels <= 63 (from the label iterator). distinct_nontrivial = distinct (entry, input) digests that were accepted or \
-         rejected with an error other than InsufficientBytes, hash-counted for strings of length <= 2, f3 and f4; longer f1/f2 \
-         strings are distinct by construction and counted in outcome_classes['f*:nontrivial-by-construction'].",
+         record/name/RDATA (89 type codes) at offset 0 and at offset 12 behind pointer-target octets. f1b: RData::read for ALL \
+         65,536 type codes x (all strings of length <=1 + the RFC RDATA of every alphabet entry). f2: ALL strings over \
+         S={00,01,02,03,04,0c,3f,40,7f,80,bf,c0,c1,ff} of length <=6/5/6 (quick: body/RDATA/name; request, TSIG and front-door \
+         bodies <=5) or <=7/6/7 (thorough), names also at every offset k of the string itself (earlier octets are pointer \
+         targets) and at offset 0x3ffe. f3: complete single-edit neighbourhoods (every truncation, every octet x all 256 values, \
+         insert/delete over S, every 16-bit window set to 8 boundary values; all pairs of S-substitutions on RDATA seeds <= 48 \
+         octets, thorough: on all RDATA seeds, names and messages <= 160 octets) of a seed corpus of valid messages / records / \
+         RDATA / names covering every RData variant, EDNS, TSIG, compression; the front door gets the query-shaped twin (QR \
+         cleared) of every message seed. f5: ALL 65,536 values of every 16-bit window of one-record messages around the RFC \
+         RDATA of the alphabet, OPT and TSIG (quick: first entry per type, record fixed fields + 24 RDATA octets; thorough: \
+         every entry, every window from the flags word on, plus the UPDATE twin). f4: 22 growth families for n = 1..64, 128, \
+         256, ... up to the largest n that fits 65,535 octets, through message / request / front door / response / TSIG entry. \
+         Oracle: returns (no panic); decoder ticks <= 256*len+4096 and (f4) ticks/len at any size <= 4x the maximum seen up \
+         to 4 KiB; every decoded Name (incl. the issuer name of a CAA value) <= 255 octets, labels <= 63 (from the label \
+         iterator). distinct_nontrivial = distinct (entry, input) digests that were accepted or rejected with an error other \
+         than InsufficientBytes, hash-counted for strings of length <= 2, f3 and f4; longer f1/f2 strings, f1b and f5 are \
+         distinct by construction and counted in outcome_classes['f*:nontrivial-by-construction'].",
     );
     ctx.assume("the tick hook (hickory_proto::verif) counts every Name::read state-machine step and every BinDecoder::{pop,read_slice}; work outside those primitives (allocation, copying of already-read slices) is not counted");
     ctx.assume("wall-clock time is not judged, only the deterministic work counter; a unit of work (65,536 f1/f2 strings: 30 s; one f3/f4 item: 300 s) that does not finish is reported by the watchdog as hang");
